@@ -1,3 +1,65 @@
-(* C10 - placeholder while the check is being brought up *)
+(* C10 - Garbage collector: reclaimers run exactly once, never early, before stop returns.
+   Only statements; proofs are `exact <lemma of GC/GCProofs.v>`.
+
+   Reach kc bits progs s = "s is reachable from the initial state of the client programs `progs` (thread i owns
+   accessor i; queue capacity 2^bits) under SOME schedule of the client threads and the collector thread", for the
+   machine whose keep_reclaim loop condition is kc:  src_kc = the condition regenerated from the current source,
+   fixed_kc = `running || index < tasks.size()` (the proposed repair).  Theorems stated for every kc hold for both.
+
+   STATUS of the property text:
+     * "invoked ... only after all critical regions that were open when it was retired have closed": c10_never_early
+       (all kc, all programs, all schedules, all capacities).
+     * "retiring blocks while the queue is full and resumes afterwards": c10_retire_blocks_iff_queue_full,
+       c10_queue_never_over_capacity, c10_blocked_retire_resumes.
+     * "no later than the return of stop()": FALSE of the current source - c10_all_before_stop_refuted (finding F2:
+       stop() while a region is open; 18-step witness, replayed on the real code by checks/c10.py case d.f2), and
+       c10_retire_racing_stop_refuted (a retire() overlapping stop() is discarded behind the marker).
+   AFTER the fix `while (running || index < tasks.size())` is committed: c10_all_before_stop_refuted stops
+   compiling (its witness no longer runs that way); delete it - see the note at the end of this file. *)
 From Coq Require Import ZArith List Bool.
-Require Import Verif.Conc.Machine Verif.GC.GCModel Verif.GC.GCProofs.
+Require Import Verif.Gen.Gen_garbage_collector Verif.Conc.Machine Verif.GC.GCModel Verif.GC.GCProofs.
+Import ListNotations.
+Local Open Scope Z_scope.
+
+(* `early` is set by the model at a reclaimer call iff some region (slot, generation) that was open at the tick of the
+   task's retire() is still open at the call *)
+Theorem c10_never_early : forall bits progs s, Reach src_kc bits progs s -> early s = false.
+Proof. exact (gc_never_early src_kc). Qed.
+Print Assumptions c10_never_early.
+
+Theorem c10_never_early_any_loop : forall kc bits progs s, Reach kc bits progs s -> early s = false.
+Proof. exact gc_never_early. Qed.
+Print Assumptions c10_never_early_any_loop.
+
+(* a thread inside retire()/stop() that holds ticket k cannot move exactly while k >= popped + capacity *)
+Theorem c10_retire_blocks_iff_queue_full : forall kc s t th x b,
+  nth_error (threads s) t = Some th -> tpc th = PPublish x b ->
+  (gstep kc s t = None <-> (qhead s + cap s <= tk_ticket x)%nat).
+Proof. exact gc_blocks_iff_full. Qed.
+Print Assumptions c10_retire_blocks_iff_queue_full.
+
+Theorem c10_queue_never_over_capacity : forall kc bits progs s, Reach kc bits progs s ->
+  forall j x, nth_error (qall s) j = Some (Some x) -> (j < qhead s + cap s)%nat.
+Proof. exact gc_queue_bounded. Qed.
+Print Assumptions c10_queue_never_over_capacity.
+
+(* once the collector has popped far enough the blocked retire() is enabled, and stays enabled whatever happens next *)
+Theorem c10_blocked_retire_resumes : forall kc s t th x b sch,
+  nth_error (threads s) t = Some th -> tpc th = PPublish x b -> (tk_ticket x < qhead s + cap s)%nat ->
+  (tk_ticket x < qhead (run st (gstep kc) s sch) + cap (run st (gstep kc) s sch))%nat.
+Proof. exact gc_resumes. Qed.
+Print Assumptions c10_blocked_retire_resumes.
+
+(* FINDING F2: the current source lets stop() return with an uncalled reclaimer *)
+Theorem c10_all_before_stop_refuted :
+  exists bits progs s, single_stop progs /\ Reach src_kc bits progs s /\ gver s < STOP_EPOCH /\ all_done s = true /\
+                       ~ stop_complete s.
+Proof. exact gc_all_before_stop_refuted. Qed.
+Print Assumptions c10_all_before_stop_refuted.
+
+(* FINDING: a retire() that overlaps stop() is popped together with the marker and discarded (no region involved) *)
+Theorem c10_retire_racing_stop_refuted :
+  exists bits progs s x, no_regions progs /\ Reach src_kc bits progs s /\ all_done s = true /\ coll_quiet s = true /\
+    In (Some x) (qall s) /\ is_marker x = false /\ ~ In x (map fst (calls s)) /\ In x (gone s).
+Proof. exact gc_retire_racing_stop_refuted. Qed.
+Print Assumptions c10_retire_racing_stop_refuted.
